@@ -18,9 +18,11 @@ package c02
 //     client does not know (any error) is "possibly applied": return time =
 //     infinity and any output accepted. Failed reads are dropped. A porcupine
 //     timeout is inconclusive.
-//  2. direct: a linearizable or strong read that began after its serving node
-//     had lost connectivity to a quorum (cut/crash complete before the call)
-//     and returned before connectivity changed again must not return rows.
+//  2. direct ("a deposed leader never serves such a read"): a linearizable or
+//     strong read served by node X must not return rows if X had no quorum
+//     connectivity from before the call until after the return AND a monitor saw
+//     another node as leader with a successful VerifyLeader between the start of
+//     X's isolation and the call.
 //  3. direct (classification aid, implied by 1): a counter read never exceeds
 //     the number of increments invoked before the read returned.
 
@@ -29,6 +31,7 @@ import (
 	"fmt"
 	"math"
 	"os"
+	"runtime"
 	"sort"
 	"strconv"
 	"strings"
@@ -185,7 +188,8 @@ type world struct {
 	noQuorum  map[string]int64      // node -> since when (ns) it has had no quorum connectivity
 	intervals map[string][][2]int64 // closed no-quorum intervals
 	faultLog  []string
-	leaderHit []int64 // times of faults that removed/moved the leader
+	leaderHit []int64            // times of faults that removed/moved the leader
+	verified  map[string][]int64 // node -> times at which the monitor saw it as leader AND VerifyLeader had succeeded
 }
 
 func (w *world) now() int64 { return int64(time.Since(w.start)) }
@@ -638,11 +642,18 @@ func TestVerif_C02_Hist(t *testing.T) {
 			rt.Skip("tempdir")
 		}
 		defer os.RemoveAll(dir)
+		// diagnostics only: if a case is stuck for 150 s, leave the goroutine stacks behind
+		wd := time.AfterFunc(150*time.Second, func() {
+			buf := make([]byte, 8<<20)
+			buf = buf[:runtime.Stack(buf, true)]
+			os.WriteFile(fmt.Sprintf("/dev/shm/g9-c02-stuck-%d.txt", os.Getpid()), buf, 0o644)
+		})
+		defer wd.Stop()
 		opts := vnode.Fast()
 		opts.Apply = 3 * time.Second
 		opts.ClientTimeout = 3 * time.Second
 		w := &world{c: vnode.NewCluster(dir, opts), nodeMu: map[string]*sync.RWMutex{}, up: map[string]bool{}, nodes: map[string]*vnode.Node{},
-			noQuorum: map[string]int64{}, intervals: map[string][][2]int64{}}
+			noQuorum: map[string]int64{}, intervals: map[string][][2]int64{}, verified: map[string][]int64{}}
 		defer w.c.Close()
 		if err := w.c.Form(p.Size, 0); err != nil {
 			vr.Label("inconclusive:form")
@@ -680,6 +691,34 @@ func TestVerif_C02_Hist(t *testing.T) {
 		}
 		clientsDone := make(chan struct{})
 		go func() { wg.Wait(); close(clientsDone) }()
+		// monitor: records when some node is a quorum-verified leader (used to decide "deposed")
+		monStop := make(chan struct{})
+		var mwg sync.WaitGroup
+		mwg.Add(1)
+		go func() {
+			defer mwg.Done()
+			for {
+				select {
+				case <-monStop:
+					return
+				case <-time.After(15 * time.Millisecond):
+				}
+				for i := 0; i < p.Size; i++ {
+					nm := fmt.Sprintf("n%d", i)
+					mu := w.nodeMu[nm]
+					mu.RLock()
+					if w.isUp(nm) {
+						if n := w.node(nm); n.Store.IsLeader() && n.Store.VerifyLeader() == nil {
+							t := w.now()
+							w.mu.Lock()
+							w.verified[nm] = append(w.verified[nm], t)
+							w.mu.Unlock()
+						}
+					}
+					mu.RUnlock()
+				}
+			}
+		}()
 		var nwg sync.WaitGroup
 		nwg.Add(1)
 		go func() {
@@ -699,6 +738,8 @@ func TestVerif_C02_Hist(t *testing.T) {
 		nwg.Wait()
 		<-clientsDone
 		clientsEnd := w.now()
+		close(monStop)
+		mwg.Wait()
 
 		// final phase: heal, restart everything, final strong reads
 		w.around(p.Size, func() {
@@ -783,15 +824,36 @@ func TestVerif_C02_Hist(t *testing.T) {
 			rt.Fatalf("%s", vr.Violation(sig, "%s", msg))
 		}
 
-		// oracle 2: reads served by a node without quorum connectivity
+		// oracle 2: reads served by a deposed leader. X lacks quorum connectivity during iv; another
+		// node Y was leader and had VerifyLeader succeed at a time m with iv.start <= m <= read.Call.
+		// Y's quorum then is in a term in which Y leads, X cannot have been elected since iv.start,
+		// so X's term is older: X is deposed when the read begins. (A read served right after the cut
+		// without a verified successor is only counted: hashicorp/raft may still count heartbeat
+		// acknowledgements that were in flight when the link broke.)
 		for _, r := range hist {
 			if !r.OK || (r.Kind != kReadLin && r.Kind != kReadStrong) || r.ServedBy == "" {
 				continue
 			}
 			for _, iv := range w.intervals[r.ServedBy] {
 				if r.Call >= iv[0] && r.Ret <= iv[1] {
-					fail("C02/read-served-without-quorum-"+r.Kind.String(),
-						"%s returned rows although serving node %s could not reach a quorum during [%dus,%dus] which covers the whole read", r, r.ServedBy, iv[0]/1000, iv[1]/1000)
+					deposedBy, at := "", int64(0)
+					for y, ts := range w.verified {
+						if y == r.ServedBy {
+							continue
+						}
+						for _, m := range ts {
+							if m >= iv[0] && m <= r.Call && (deposedBy == "" || m < at) {
+								deposedBy, at = y, m
+							}
+						}
+					}
+					if deposedBy == "" {
+						vr.Label("observed:read-served-after-cut-before-successor")
+						continue
+					}
+					fail("C02/read-served-by-deposed-leader-"+r.Kind.String(),
+						"%s returned rows although serving node %s could not reach a quorum during [%dus,%dus] (covers the whole read) and %s was a quorum-verified leader at %dus, before the read began",
+						r, r.ServedBy, iv[0]/1000, iv[1]/1000, deposedBy, at/1000)
 				}
 			}
 		}
